@@ -174,12 +174,57 @@ def ambient():
     """process-global state a library must leave alone (taken before the package is imported and at the end)"""
     import decimal
     import warnings
+    import atexit
+    import gc
+    import locale
+    import logging
+    import os
+    import random
+    import signal
+    import threading
     c = decimal.getcontext()
+    sigs = {}
+    for name in sorted(dir(signal)):
+        if name.startswith("SIG") and not name.startswith("SIG_"):
+            try:
+                h = signal.getsignal(getattr(signal, name))
+            except (ValueError, OSError, TypeError):
+                continue
+            sigs[name] = getattr(h, "__name__", None) or repr(h)
+    try:
+        loc = locale.setlocale(locale.LC_ALL)       # a query: nothing is set
+    except Exception as e:  # noqa
+        loc = repr(e)
+    mask = os.umask(0)
+    os.umask(mask)
+    try:
+        nexit = atexit._ncallbacks()
+    except AttributeError:
+        nexit = len(getattr(atexit, "_exithandlers", ()))
+    bi = __import__("__builtin__" if PY2 else "builtins")
     return {"decimal": [c.prec, str(c.rounding), c.Emin, c.Emax, c.capitals, getattr(c, "clamp", None),
                         sorted(str(k) for k, v in c.traps.items() if v)],
             "sys.path": list(sys.path),
             "warnings.filters": [repr(f) for f in warnings.filters],
-            "cwd": __import__("os").getcwd()}
+            "warnings.showwarning": "%s.%s" % (getattr(warnings.showwarning, "__module__", "?"), getattr(warnings.showwarning, "__name__", "?")),
+            "cwd": os.getcwd(),
+            "signal handlers": sigs,
+            "locale": loc,
+            "environ": dict((repr(k), repr(v)) for k, v in os.environ.items()),
+            "umask": mask,
+            "recursion limit": sys.getrecursionlimit(),
+            "switch interval": sys.getcheckinterval() if PY2 else sys.getswitchinterval(),
+            "default encoding": sys.getdefaultencoding(),
+            "gc": [gc.isenabled(), list(gc.get_threshold())],
+            "std streams are the original ones": [sys.stdin is sys.__stdin__, sys.stdout is sys.__stdout__, sys.stderr is sys.__stderr__],
+            "stdout encoding": [getattr(sys.__stdout__, "encoding", None), getattr(sys.__stdout__, "errors", None)],
+            "hooks are the original ones": [sys.excepthook is sys.__excepthook__, sys.displayhook is sys.__displayhook__],
+            "logging root": [logging.root.level, len(logging.root.handlers), logging.root.manager.disable, logging.raiseExceptions],
+            "random state": hash(repr(random.getstate())) & 0xFFFFFFFF,
+            "threads": threading.active_count(),
+            "atexit callbacks": nexit,
+            "builtins": len(dir(bi)),
+            "import hooks": [len(sys.meta_path), len(sys.path_hooks)]}
 
 
 def main():
@@ -189,6 +234,7 @@ def main():
     import decimal  # noqa  (imported before the snapshot so that the import itself is not counted)
     import warnings  # noqa
     import random  # noqa
+    import atexit, gc, locale, logging, signal, threading  # noqa
     out["ambient_before"] = ambient()
     try:
         import cvss
